@@ -72,14 +72,14 @@ func vh_C18_walk() {
 	} else {
 		path = []string{"." + name}
 	}
+	route := vChoice("route", 2)
 	want := vC18Expect(r)
-	if kind == 3 {
+	if kind == 3 && route == 0 {
 		want = 1 // nested packages may be traversed/inspected whatever their name
 	}
 	if want == 0 {
 		vDone()
 	}
-	route := vChoice("route", 2)
 	var got Sexp
 	panicked := false
 	func() {
@@ -104,9 +104,7 @@ func vh_C18_walk() {
 		return
 	}
 	if want == 1 {
-		if !(route == 1 && kind == 3) {
-			vAssert(err == nil, "public-member-is-accessible")
-		}
+		vAssert(err == nil, "public-member-is-accessible")
 		if err == nil && route == 0 && kind == 0 {
 			i, isI := got.(*SexpInt)
 			vAssert(isI && i.Val == val.(*SexpInt).Val, "public-member-value")
@@ -154,6 +152,9 @@ var vC18Programs = []struct {
 	{`(def p (package "pk" (def H (hash K: 9001)))) (+ 0 p.H.K)`, 1},
 	{`(def p (package "pk" (def h (hash K: 9001)))) (+ 0 p.h.K)`, -1},
 	{`(def p (package "pk" (def Open 9001))) (set p.Open 9002) (+ 0 p.Open)`, 2},
+	{`(def o (package "out" (def in (package "inn" (def Kit 9001))))) {o.in = (package "evil" (def Kit 9002))}`, -1},
+	{`(def o (package "out" (def in (package "inn" (def Kit 9001))))) (set o.in 9002)`, -1},
+	{`(def o (package "out" (def In (package "inn" (def Kit 9001))))) (+ 0 o.In.Kit)`, 1},
 }
 
 func vh_C18_programs() {
